@@ -40,10 +40,15 @@ def _worker(args):
     except Exception:
         pass
     # something raised: evaluate case by case
-    return [eval_one(mod, c) for c in chunk]
+    return [_eval_one_inproc(mod, c) for c in chunk]
 
 
 def eval_one(mod, c):
+    """evaluate one case in a forked child (the case may crash the interpreter: shrinking and replaying must survive it)"""
+    return evaluate_isolated(mod.__name__, [c])[0]
+
+
+def _eval_one_inproc(mod, c):
     """evaluate one case. A call inside the documented domain that raises from the mahotas sources is a finding for
     that case (a value turned into an exception); an exception in the harness itself is infrastructure."""
     try:
